@@ -221,7 +221,7 @@ Definition rw_tspec (c : conds) (t : tspec) : ditem -> option doc :=
     | TQueryPh k e m => rv (tv_queryph k e m)
     | THashes H => smarked (c_id c) (touch_hashes H) (rw_hashes H)
     | TExtract X => smarked (c_id c) (touch_extract X) (rw_extract X)
-    | TNoop => fun i => Some (Entry i)
+    | _ => fun i => Some (Entry i)       (* rule-level attributes only: change_logsource, set_state, ... *)
     end.
 
 (* documents of a rule: named detections (the condition is carried separately) *)
